@@ -443,3 +443,15 @@ define void @k() !note !{!"k"} {
 !nm = !{!0, !1, !0}
 !0 = !{!"numbered", !{!"inline-in-numbered", !{!1}}}
 !1 = !{!{!DIExpression()}, !"tail"}
+;;; ATOM md/di-macro-types-as-numbers
+!llvm.module.flags = !{!0}
+!llvm.dbg.cu = !{!1}
+!0 = !{i32 2, !"Debug Info Version", i32 3}
+!1 = distinct !DICompileUnit(language: DW_LANG_C99, file: !2, emissionKind: FullDebug, macros: !3)
+!2 = !DIFile(filename: "a.c", directory: "/")
+!3 = !{!4}
+!4 = !DIMacroFile(type: 3, file: !2, nodes: !5)
+!5 = !{!6, !7, !8}
+!6 = !DIMacro(type: 1, line: 1, name: "A", value: "1")
+!7 = !DIMacro(type: DW_MACINFO_undef, line: 2, name: "A")
+!8 = !DIMacroFile(type: 200, line: 3, file: !2)
